@@ -144,7 +144,7 @@ def run(phase, cases, ctx):
             kw = {'method': case['method']}
             if case['fft'] is not None:
                 kw['fft_size'] = case['fft']
-            full_b = np.broadcast_to(bands, tuple(xb[: len(xb) - len(bb)]) + bands.shape) if bb else np.broadcast_to(bands, tuple(xb) + (K,))
+            full_b = np.broadcast_to(bands, np.broadcast_shapes(tuple(xb), tuple(bb)) + (K,))   # band batch axes broadcast against the input's
             rows = full_b.reshape(-1, K)
             refs = [ref_matrix(n, r) for r in rows]
             if not bb:
